@@ -269,3 +269,39 @@ Proof.
   - apply in_flat_map in H as [r [Hr Hp]]. right. exists r. split; [exact Hr|apply anc_parent, Hp].
   - apply in_flat_map in Hp as [r [Hr Hp]]. right. exists r. split; [exact Hr|eapply anc_step; eassumption].
 Qed.
+
+(* ---------- what the walker returns: the first ancestor level that is empty or consists only
+   of individuals with a native generation ---------- *)
+Fixpoint level (h : heap) (k : nat) (frontier : list nat) : list nat :=
+  match k with
+  | O => frontier
+  | S k' => level h k' (flat_map (parents_of h) frontier)
+  end.
+
+Definition stops (m : ngmap) (l : list nat) : bool :=
+  (match l with [] => true | _ => false end) || forallb (has_ng m) l.
+
+Lemma walk_is_first_stopping_level h m fuel : forall frontier l,
+  walk h m fuel frontier = Some l ->
+  exists k, l = level h k frontier /\ stops m l = true /\
+            forall j, j < k -> stops m (level h j frontier) = false.
+Proof.
+  induction fuel as [|f IH]; intros frontier l H; simpl in H; [discriminate|].
+  fold (stops m frontier) in H.
+  destruct (stops m frontier) eqn:Hs.
+  - injection H as <-. exists 0. split; [reflexivity|]. split; [exact Hs|]. intros j Hj. lia.
+  - destruct (IH _ _ H) as [k [E [St Fj]]]. exists (S k). split; [exact E|]. split; [exact St|].
+    intros [|j] Hj; [exact Hs|]. simpl. apply Fj. lia.
+Qed.
+
+Lemma level_walk h m : forall k frontier fuel,
+  k < fuel -> stops m (level h k frontier) = true ->
+  (forall j, j < k -> stops m (level h j frontier) = false) ->
+  walk h m fuel frontier = Some (level h k frontier).
+Proof.
+  induction k as [|k IH]; intros frontier fuel Hf St Fj.
+  - destruct fuel; [lia|]. simpl in *. fold (stops m frontier). rewrite St. reflexivity.
+  - destruct fuel; [lia|]. simpl. fold (stops m frontier).
+    pose proof (Fj 0 (Nat.lt_0_succ _)) as F0. simpl in F0. rewrite F0. apply IH; [lia|exact St|].
+    intros j Hj. apply (Fj (S j)). lia.
+Qed.
